@@ -51,28 +51,47 @@ type Term struct {
 	id   int
 	// for var of array sort / havocabove: every pointer stored inside has rootid < Bound (0 = unknown)
 	Bound    int64
+	GapLo, GapHi int64 // for a Ref var: rootid is known NOT to lie in [GapLo, GapHi] (0,0 = nothing known)
 	HasBound bool // contains a bound (quantified) variable
 	Bvars    []*Term
 }
 
-var termTable = map[string]*Term{}
 var termCount int
 
+type termKey struct {
+	op, name string
+	iv       int64
+	s        *Sort
+	n        int
+	a0, a1, a2 int
+	rest     string
+}
+
+var termTable2 = map[termKey]*Term{}
+
 func mk(op, name string, iv int64, s *Sort, args ...*Term) *Term {
-	var sb strings.Builder
-	sb.WriteString(op)
-	sb.WriteByte('|')
-	sb.WriteString(name)
-	sb.WriteByte('|')
-	sb.WriteString(strconv.FormatInt(iv, 10))
-	sb.WriteByte('|')
-	sb.WriteString(s.String())
-	for _, a := range args {
-		sb.WriteByte(',')
-		sb.WriteString(strconv.Itoa(a.id))
+	k := termKey{op: op, name: name, iv: iv, s: s, n: len(args)}
+	switch {
+	case len(args) > 0:
+		k.a0 = args[0].id
+		fallthrough
+	default:
 	}
-	k := sb.String()
-	if t, ok := termTable[k]; ok {
+	if len(args) > 1 {
+		k.a1 = args[1].id
+	}
+	if len(args) > 2 {
+		k.a2 = args[2].id
+	}
+	if len(args) > 3 {
+		var sb strings.Builder
+		for _, a := range args[3:] {
+			sb.WriteString(strconv.Itoa(a.id))
+			sb.WriteByte(',')
+		}
+		k.rest = sb.String()
+	}
+	if t, ok := termTable2[k]; ok {
 		return t
 	}
 	termCount++
@@ -85,7 +104,7 @@ func mk(op, name string, iv int64, s *Sort, args ...*Term) *Term {
 	if op == "bound" {
 		t.HasBound = true
 	}
-	termTable[k] = t
+	termTable2[k] = t
 	return t
 }
 
@@ -115,6 +134,50 @@ func VarB(name string, s *Sort, bound int64) *Term {
 	return t
 }
 func BoundVar(name string, s *Sort) *Term { return mk("bound", name, 0, s) }
+
+// VarForeign: a reference that is older than bound and is not one of the families gapLo..gapHi
+func VarForeign(name string, bound, gapLo, gapHi int64) *Term {
+	t := VarB(name, SRef, bound)
+	if gapLo <= gapHi {
+		t.GapLo, t.GapHi = gapLo, gapHi
+	}
+	return t
+}
+
+// excludesFamily: rootid(t) is syntactically known to differ from k
+func excludesFamily(t *Term, k int64) bool {
+	switch t.Op {
+	case "nilref":
+		return k != 0
+	case "sub", "elem", "mkey":
+		return excludesFamily(t.Args[0], k)
+	case "ite":
+		return excludesFamily(t.Args[1], k) && excludesFamily(t.Args[2], k)
+	case "var":
+		if t.GapLo <= k && k <= t.GapHi && !(t.GapLo == 0 && t.GapHi == 0) {
+			return true
+		}
+	}
+	lo, hi := rootRange(t)
+	if hi != noBound && k > hi {
+		return true
+	}
+	if lo != noBound && k < lo {
+		return true
+	}
+	return false
+}
+
+// HavocFam(a, k, fresh): array equal to fresh on references of family k and to a elsewhere
+func HavocFam(a *Term, k int64, fresh *Term) *Term {
+	t := mk("havocfam", "", k, a.S, a, fresh)
+	cb := contentBound(a)
+	fb := contentBound(fresh)
+	if cb != 0 && fb != 0 {
+		t.Bound = max64(cb, fb)
+	}
+	return t
+}
 
 var strLits = map[string]*Term{}
 var strLitList []string
@@ -352,7 +415,23 @@ func refCmp(a, b *Term) int {
 const noBound = int64(-1 << 62)
 
 // rootRange returns (lo, hi) with lo <= rootid(t) <= hi when known (noBound when not)
+type rr struct{ lo, hi int64 }
+
+var rrMemo = map[int]rr{}
+
 func rootRange(t *Term) (int64, int64) {
+	if len(t.Args) == 0 {
+		return rootRangeRaw(t)
+	}
+	if r, ok := rrMemo[t.id]; ok {
+		return r.lo, r.hi
+	}
+	lo, hi := rootRangeRaw(t)
+	rrMemo[t.id] = rr{lo, hi}
+	return lo, hi
+}
+
+func rootRangeRaw(t *Term) (int64, int64) {
 	switch t.Op {
 	case "nilref":
 		return 0, 0
@@ -387,11 +466,25 @@ func rootRange(t *Term) (int64, int64) {
 }
 
 // contentBound: every Ref stored in array term a has rootid < bound (0 unknown)
+var cbMemo = map[int]int64{}
+
 func contentBound(a *Term) int64 {
+	if len(a.Args) == 0 {
+		return contentBoundRaw(a)
+	}
+	if r, ok := cbMemo[a.id]; ok {
+		return r
+	}
+	r := contentBoundRaw(a)
+	cbMemo[a.id] = r
+	return r
+}
+
+func contentBoundRaw(a *Term) int64 {
 	switch a.Op {
 	case "var":
 		return a.Bound
-	case "havocabove":
+	case "havocabove", "havocfam":
 		return a.Bound
 	case "store":
 		b := contentBound(a.Args[0])
@@ -443,7 +536,22 @@ func litCmp(a, b *Term) int {
 	return -1
 }
 
+var eqMemo = map[selKey]*Term{}
+
 func Eq(a, b *Term) *Term {
+	k := selKey{a.id, b.id}
+	if a.id > b.id {
+		k = selKey{b.id, a.id}
+	}
+	if r, ok := eqMemo[k]; ok {
+		return r
+	}
+	r := eqRaw(a, b)
+	eqMemo[k] = r
+	return r
+}
+
+func eqRaw(a, b *Term) *Term {
 	if a.S != b.S {
 		panic(fmt.Sprintf("Eq sort mismatch %s:%s vs %s:%s", a, a.S, b, b.S))
 	}
@@ -537,7 +645,21 @@ func Mul(a, b *Term) *Term {
 	return mk("*", "", 0, SInt, a, b)
 }
 
+type selKey struct{ a, i int }
+
+var selMemo = map[selKey]*Term{}
+
 func Select(a, i *Term) *Term {
+	k := selKey{a.id, i.id}
+	if r, ok := selMemo[k]; ok {
+		return r
+	}
+	r := selectRaw(a, i)
+	selMemo[k] = r
+	return r
+}
+
+func selectRaw(a, i *Term) *Term {
 	for {
 		switch a.Op {
 		case "store":
@@ -546,6 +668,18 @@ func Select(a, i *Term) *Term {
 				return a.Args[2]
 			case 0:
 				a = a.Args[0]
+				if r, ok := selMemo[selKey{a.id, i.id}]; ok {
+					return r
+				}
+				continue
+			}
+		case "havocfam":
+			if excludesFamily(i, a.Int) {
+				a = a.Args[0]
+				continue
+			}
+			if lo, hi := rootRange(i); lo == hi && lo == a.Int {
+				a = a.Args[1]
 				continue
 			}
 		case "havocabove":
@@ -730,6 +864,8 @@ func rebuild(t *Term, a []*Term) *Term {
 		return MKey(a[0], a[1])
 	case "havocabove":
 		return HavocAbove(a[0], t.Int, a[1])
+	case "havocfam":
+		return HavocFam(a[0], t.Int, a[1])
 	case "app":
 		return appSimp(t.Name, t.S, a...)
 	}
@@ -766,7 +902,18 @@ func concatParts(t *Term) []*Term {
 	}
 	return []*Term{t}
 }
+var lenMemo = map[int]*Term{}
+
 func StrLen(t *Term) *Term {
+	if r, ok := lenMemo[t.id]; ok {
+		return r
+	}
+	r := strLenRaw(t)
+	lenMemo[t.id] = r
+	return r
+}
+
+func strLenRaw(t *Term) *Term {
 	if t.Op == "strlit" {
 		return IntLit(int64(len(t.Name)))
 	}
@@ -790,7 +937,18 @@ func appSimp(name string, s *Sort, a ...*Term) *Term {
 	return App(name, s, a...)
 }
 
+var rootMemo = map[int]*Term{}
+
 func RootID(t *Term) *Term {
+	if r, ok := rootMemo[t.id]; ok {
+		return r
+	}
+	r := rootIDRaw(t)
+	rootMemo[t.id] = r
+	return r
+}
+
+func rootIDRaw(t *Term) *Term {
 	switch t.Op {
 	case "nilref":
 		return IntLit(0)
@@ -910,6 +1068,14 @@ func (p *printer) expr(t *Term) string {
 			vs = append(vs, fmt.Sprintf("(%s %s)", smtSym(v.Name), v.S))
 		}
 		s = fmt.Sprintf("(%s (%s) %s)", t.Op, strings.Join(vs, " "), p.expr(t.Args[0]))
+	case "havocfam":
+		sym := fmt.Sprintf("hf!%d", t.id)
+		a := p.expr(t.Args[0])
+		f := p.expr(t.Args[1])
+		p.usesRootID = true
+		p.defs = append(p.defs, fmt.Sprintf("(declare-const %s %s)\n(assert (forall ((r!q Ref)) (! (= (select %s r!q) (ite (= (rootid r!q) %d) (select %s r!q) (select %s r!q))) :pattern ((select %s r!q)))))", sym, t.S, sym, t.Int, f, a, sym))
+		p.names[t.id] = sym
+		return sym
 	case "havocabove":
 		// fresh array constant with a frame axiom
 		sym := fmt.Sprintf("hv!%d", t.id)
